@@ -156,6 +156,16 @@ func (k Keeper) LockVoterPower(
 	voter sdk.AccAddress,
 	signals []types.Signal,
 ) error {
+	// reject signals whose summed power does not fit in int64; the wrapped sum would
+	// otherwise under-state the power to lock.
+	total := math.ZeroInt()
+	for _, signal := range signals {
+		total = total.Add(math.NewInt(signal.Power))
+	}
+	if !total.IsInt64() {
+		return types.ErrInvalidSignal.Wrap("sum of signal powers overflows")
+	}
+
 	sumPower := types.SumPower(signals)
 	if err := k.restakeKeeper.SetLockedPower(ctx, voter, types.ModuleName, math.NewInt(sumPower)); err != nil {
 		return err
